@@ -221,6 +221,35 @@ func runC12(c *Collector, r *Rng, thorough bool) {
 			}
 		}
 	}
+	// envelopes whose buckets hold 0 .. 40 additional parameters (the protected one crosses 15 / 16 / 23 / 24 entries,
+	// where the map head changes its form): what SignHashEnvelope produces, VerifyHashEnvelope accepts
+	for _, where := range []string{"protected", "unprotected", "both"} {
+		for extra := 0; extra <= 40; extra++ {
+			h := cose.Headers{Protected: cose.ProtectedHeader{cose.HeaderLabelAlgorithm: cose.AlgorithmES256}, Unprotected: cose.UnprotectedHeader{}}
+			for j := 0; j < extra; j++ {
+				if where != "unprotected" {
+					h.Protected[int64(-70200-j)] = int64(j)
+				}
+				if where != "protected" {
+					h.Unprotected[int64(-70300-j)] = int64(j)
+				}
+			}
+			hv := r.Bytes(32)
+			sg := &spySigner{alg: -7, kind: SOk, sig: []byte{1, 2}}
+			out, err := cose.SignHashEnvelope(nil, sg, h, cose.HashEnvelopePayload{HashAlgorithm: cose.AlgorithmSHA256, HashValue: hv, Location: "l", PreimageContentType: "a/b"})
+			c.Eval("many-parameters/"+where, fmt.Sprint(extra), true)
+			if err != nil {
+				c.Fail("C12/sign-refused", fmt.Sprintf("SignHashEnvelope refused headers with %d additional parameters (%s): %v", extra, where, err), map[string]any{"extra": extra, "where": where})
+				continue
+			}
+			m, verr := cose.VerifyHashEnvelope(&spyVerifier{alg: -7}, out)
+			if verr != nil || m == nil {
+				c.Fail("C12/verify-refused", fmt.Sprintf("an envelope produced by SignHashEnvelope with %d additional parameters (%s) is refused by VerifyHashEnvelope: %v", extra, where, verr), map[string]any{"extra": extra, "where": where, "out": hx(trimTo(out, 300))})
+			} else if !bytes.Equal(m.Payload, hv) {
+				c.Fail("C12/not-the-given-values", "VerifyHashEnvelope returns another digest", map[string]any{"extra": extra, "where": where})
+			}
+		}
+	}
 	// envelopes with a real signature of the right key over the right structure, but not a signature of the algorithm the
 	// protected bucket names: RSASSA-PSS with another salt length than the digest length (RFC 8230 section 2), ECDSA
 	// over the digest of another hash: no message is returned
@@ -583,6 +612,15 @@ func c13Values() []hvalue {
 		{"byte-array", [2]byte{1, 2}, nil},
 		{"named-string", namedString("a/b"), nil},
 		{"named-int", namedInt(7), nil},
+		// byte strings and typed slices whose elements happen to be the numbers of labels that are present (4 = kid is
+		// always there, 2 = crit itself): not an array of labels
+		{"bstr-naming-kid", []byte{4}, wBstr([]byte{4}, -1)},
+		{"bstr-naming-kid-and-crit", []byte{4, 2}, wBstr([]byte{4, 2}, -1)},
+		{"named-bytes-naming-kid", namedBytes{4}, nil},
+		{"raw-cbor-uint-4", cbor.RawMessage{0x04}, nil},
+		{"int64-slice-naming-kid", []int64{4}, nil},
+		{"string-slice", []string{"a"}, nil},
+		{"tstr-naming-kid", "\x04", wTstr("\x04", -1)},
 	}
 }
 
@@ -851,7 +889,7 @@ func runC13(c *Collector, r *Rng, thorough bool) {
 					}
 					h.RawUnprotected = b
 				}
-				for _, structure := range []string{"sign1", "signature", "signmsg"} {
+				for _, structure := range []string{"sign1", "signature", "signmsg", "signmsg-signer", "signmsg-second-signer", "nested-countersignature", "countersignature-in-list"} {
 					var op, obs string
 					var err error
 					switch structure {
@@ -861,6 +899,14 @@ func runC13(c *Collector, r *Rng, thorough bool) {
 						op, obs, _, err, _ = execEncSignature(&cose.Signature{Headers: h, Signature: []byte{1}})
 					case "signmsg":
 						op, obs, _, err, _ = execEncSignMsg(&cose.SignMessage{Headers: h, Payload: []byte("p"), Signatures: []*cose.Signature{{Headers: cose.Headers{Protected: cose.ProtectedHeader{cose.HeaderLabelAlgorithm: cose.AlgorithmES256}}, Signature: []byte{1}}}})
+					case "signmsg-signer":
+						op, obs, _, err, _ = execEncSignMsg(&cose.SignMessage{Headers: cose.Headers{Protected: cose.ProtectedHeader{}}, Payload: []byte("p"), Signatures: []*cose.Signature{{Headers: h, Signature: []byte{1}}}})
+					case "signmsg-second-signer":
+						op, obs, _, err, _ = execEncSignMsg(&cose.SignMessage{Headers: cose.Headers{Protected: cose.ProtectedHeader{}}, Payload: []byte("p"), Signatures: []*cose.Signature{{Headers: cose.Headers{Protected: cose.ProtectedHeader{cose.HeaderLabelAlgorithm: cose.AlgorithmES256}}, Signature: []byte{1}}, {Headers: h, Signature: []byte{2}}}})
+					case "nested-countersignature":
+						op, obs, _, err, _ = execEncSign1(true, &cose.Sign1Message{Headers: cose.Headers{Protected: cose.ProtectedHeader{cose.HeaderLabelAlgorithm: cose.AlgorithmES256}, Unprotected: cose.UnprotectedHeader{int64(11): &cose.Countersignature{Headers: h, Signature: []byte{3}}}}, Payload: []byte("p"), Signature: []byte{1}})
+					case "countersignature-in-list":
+						op, obs, _, err, _ = execEncSign1(true, &cose.Sign1Message{Headers: cose.Headers{Protected: cose.ProtectedHeader{cose.HeaderLabelAlgorithm: cose.AlgorithmES256}, Unprotected: cose.UnprotectedHeader{int64(7): []*cose.Countersignature{{Headers: cose.Headers{Protected: cose.ProtectedHeader{cose.HeaderLabelAlgorithm: cose.AlgorithmES256}}, Signature: []byte{4}}, {Headers: h, Signature: []byte{3}}}}}, Payload: []byte("p"), Signature: []byte{1}})
 					}
 					addCase(c, "iv/"+iv.name+"/"+structure+"/"+rawMode, op, obs, true)
 					if (err != nil) != bad {
